@@ -39,6 +39,9 @@ def _params(stacks):
                             out.append(dict(layers=layers, workload=wl, wait=wait, kw=kw, racer=racer, base="tp"))
                             continue
                         out.append(dict(layers=layers, workload=wl, wait=wait, kw=kw, racer=racer, base="manual"))
+                        if not racer and not kw and wl in ("idle", "queued", "running"):
+                            out.append(dict(layers=layers, workload=wl, wait=wait, kw=kw, racer=racer, base="manual",
+                                            conc=True))
     return out
 
 
@@ -84,8 +87,17 @@ def body(mc, p):
 
     kw = dict(p["kw"])
 
+    other_done = [not p.get("conc")]
+
+    def shutter2():
+        mc.call("shutdown3", ex.shutdown, p["wait"], **kw)
+        other_done[0] = True
+
     def shutter():
         mc.call("shutdown", ex.shutdown, p["wait"], **kw)
+        # two threads calling shutdown() at once is outside the stated quantifier ("the
+        # shutdown"): the post-conditions are only demanded once both calls have returned
+        mc.wait_until(lambda: other_done[0])
         alive = sorted(t.name for t in mc.s.threads[n0:]
                        if not t.client and t not in harness_threads and not t.finished)
         mc.emit("after.shutdown", alive=tuple(alive))
@@ -114,6 +126,8 @@ def body(mc, p):
         release[0] = True
 
     mc.spawn(shutter, "shut")
+    if p.get("conc"):
+        mc.spawn(shutter2, "shut2")
     if p["racer"]:
         mc.spawn(racer, "racer")
     if wl == "running":
@@ -129,6 +143,8 @@ def check(x):
     if not x.require(len(ret) == 1, "shutdown-did-not-return", end=x.end, wait=p["wait"]):
         return
     x.require(len(x.events("ret", op="shutdown2")) == 1, "second-shutdown-did-not-return", end=x.end)
+    if p.get("conc"):
+        x.require(len(x.events("ret", op="shutdown3")) == 1, "concurrent-shutdown-did-not-return", end=x.end)
     bs = x.obs.get("base_shutdowns", ())
     if p["base"] == "manual":
         x.require(len(bs) == 1, "base-shutdown-count", n=len(bs))
@@ -136,7 +152,8 @@ def check(x):
         x.require(bs[0][0] == p["wait"] and bs[0][1] == tuple(sorted(dict(p["kw"]).items())),
                   "base-shutdown-args", detail=repr(bs[0]))
         first = x.events("base.shutdown")[0]
-        x.require(first["seq"] < ret[0]["seq"], "base-shutdown-after-return")
+        if not p.get("conc"):
+            x.require(first["seq"] < ret[0]["seq"], "base-shutdown-after-return")
     for e in x.events("late.submit"):
         x.require(e["out"] == "RuntimeError" and e.get("ok"), "submit-after-shutdown", layer=e["layer"], out=e["out"])
     for e in x.events("race.submit"):
